@@ -2656,7 +2656,12 @@ func (pid *PID) setBehaviorStacked(behavior Behavior) {
 // prior to setBehaviorStacked is called
 func (pid *PID) unsetBehaviorStacked() {
 	pid.fieldsLocker.Lock()
-	pid.behaviorStack.Pop()
+	// never pop the base behavior: with nothing stacked this is a no-op, as
+	// documented on UnBecomeStacked; an empty stack would silently drop every
+	// later message
+	if pid.behaviorStack.Len() > 1 {
+		pid.behaviorStack.Pop()
+	}
 	pid.fieldsLocker.Unlock()
 }
 
